@@ -215,9 +215,9 @@ def run(ck):
     ms = [list(m) for m in gv.multisets(2)]
     for m in (rs.sample(ms, 1200) if quick else ms):
         inferred.append([m, rs.choice([0, 3, 10])])
-    for i in range(1500 if quick else 40000):
+    for i in range(4000 if quick else 40000):
         inferred.append([gv.gen_multiset(rs), rs.choice([0, 1, 3, 10])])
-    nrandom = 12000 if quick else 200000
+    nrandom = 30000 if quick else 200000
     n = core.NPROC * (2 if quick else 8)
     payloads = [
         {"exprs": exprs[i::n], "inferred": inferred[i::n], "random": nrandom // n, "seed": f"C07:{ck.seed}:{i}", "pair_every": 4}
